@@ -34,7 +34,13 @@ class AnsiFormatter(Formatter):
 
     def format(self, string, style=None):  # type: (str, Optional[Style]) -> str
         if style is not None:
-            self._formatter._style_stack.push(StyleConverter.convert(style))
+            pastel_style = StyleConverter.convert(style)
+
+            if string and not self._formatter.FULL_TAG_REGEX.search(string):
+                # Pastel returns a string without any tag as it is
+                return pastel_style.apply(string.replace("\\<", "<"))
+
+            self._formatter._style_stack.push(pastel_style)
 
         formatted = self._formatter.colorize(string)
 
